@@ -107,6 +107,8 @@ class TreeObserver:
             return f"PyTree[{self.describe(s['leaf'])}" + (f",{s['struct']!r}]" if s.get("struct") else "]")
         if k in ("tuple", "union"):
             return f"{k}[{','.join(self.describe(i) for i in s['items'])}]"
+        if k in ("listof", "dictof"):
+            return f"{k}[{self.describe(s['item'])}]"
         return k
 
     def ann_shape(self, aid):
@@ -123,6 +125,8 @@ class TreeObserver:
             return f"tree({self.ann_shape(s['leaf'])};{sk})"
         if k in ("tuple", "union"):
             return f"{k}({','.join(self.ann_shape(i) for i in s['items'])})"
+        if k in ("listof", "dictof"):
+            return f"{k}({self.ann_shape(s['item'])})"
         return k
 
 
@@ -147,6 +151,19 @@ def leaf_value(g, r, anns, L, pref, good, idx):
         bad_at = -1 if good else r.randrange(len(items))
         return {"t": r.choice(("tuple", "tuple", "nt")) if len(items) == 2 else "tuple",
                 "c": [leaf_value(g, r, anns, it, pref, i != bad_at, idx) for i, it in enumerate(items)]}
+    if k == "listof":
+        n = r.randrange(0, 3)
+        bad_at = -1 if good else r.randrange(n + 1)
+        items = [leaf_value(g, r, anns, spec["item"], pref, i != bad_at, idx) for i in range(n)]
+        if not good and bad_at >= n:
+            return {"t": "tuple", "c": items}
+        return {"t": "list", "c": items}
+    if k == "dictof":
+        keys = ["k0", "k1"][: r.randrange(0, 3)]
+        bad_at = -1 if good else r.randrange(len(keys) + 1)
+        if not good and bad_at >= len(keys):
+            return {"t": "int", "v": 5}
+        return {"t": "dict", "c": [[kk, leaf_value(g, r, anns, spec["item"], pref, i != bad_at, idx)] for i, kk in enumerate(keys)]}
     if k == "union":
         if good:
             return leaf_value(g, r, anns, r.choice(spec["items"]), pref, True, idx)
